@@ -238,7 +238,7 @@ class Fragment:
         toks = self._toks()
         res = []
         for i, (k, s, e) in enumerate(toks):
-            if k == "ident" and self.orig[s:e] in ("for", "while", "loop") and s > self._body_open_rel():
+            if k == "ident" and self.orig[s:e] in ("for", "while", "loop") and s > (self._body_open_rel() if self.item is not None else -1):
                 # skip `for<'a>` HRTB
                 if self.orig[s:e] == "for" and i + 1 < len(toks) and self.orig[toks[i + 1][1]] == "<":
                     continue
@@ -281,7 +281,7 @@ class Fragment:
             raise AnchorLost("%s: `in` of for-loop #%d not found" % (self.name, k))
         return self.insert_at(m.end(), "%s: " % name)
 
-    def for_to_loop(self, k, spec="", before_next="", on_none="", after_next="", it_name=None):
+    def for_to_loop(self, k, spec="", before_next="", on_none="", after_next="", it_name=None, iter_expr=None, after_decl=""):
         """R1: `for PAT in EXPR {` => `loop SPEC { before; let Some(PAT) = EXPR.next() else { on_none break; }; after`.
         If it_name is given: `let mut it_name = IntoIterator::into_iter(EXPR);` is emitted before the loop."""
         ls = self.loops()
@@ -296,7 +296,7 @@ class Fragment:
         pre = ""
         nxt = expr
         if it_name:
-            pre = "let mut %s = IntoIterator::into_iter(%s);\n" % (it_name, expr)
+            pre = "let mut %s = %s;\n%s" % (it_name, iter_expr.replace("{expr}", expr) if iter_expr else "IntoIterator::into_iter(%s)" % expr, after_decl)
             nxt = it_name
         new = "%sloop\n%s\n{\n%s let Some(%s) = %s.next() else { %s break; };\n%s" % (
             pre, spec.rstrip(), before_next, pat, nxt, on_none, after_next)
